@@ -323,6 +323,17 @@ def main(ctx, replay):
                     c["_set"] = name + "+seq"
                     cases.append(c)
                     idx += 1
+    # a clock that moves WHILE one delivery is signed (2 s per reading, the first reading 1 s before a window edge): the secret must be
+    # the one the rule picks at the instant the request is stamped with, whichever reading that is
+    for name, vs, via in sets[:len(fixed_sets())] + sets[-6:]:
+        edges = sorted({ns_of(v["from"]) for v in vs} | {ns_of(v["until"]) for v in vs if v["has_until"]})
+        for sel in ("newest_valid", "oldest_valid"):
+            for e in (edges if len(edges) <= 4 else rng.sample(edges, 4)):
+                c = make_case(rng, name, vs, sel, e - NS, via, idx)
+                c["now_step_ns"] = 2 * NS
+                c["_set"] = name + "+moving-clock"
+                cases.append(c)
+                idx += 1
     s = T0 * NS
     # plain secret_ref (no versions), unsigned target, unloadable plain ref, blank headers, bad method/URL
     extra = []
@@ -358,6 +369,27 @@ def main(ctx, replay):
         raise RuntimeError("sign-run failed: " + err[-2000:])
     impl = json.loads(out)["cases"]
 
+    # a moving clock: the signing instant is the reading whose second the request is stamped with
+    dist_mc = {"cases": 0, "reads": {}, "stamped_reading": {}}
+    for c, r in zip(cases, impl):
+        if not c.get("now_step_ns") or r.get("compile_err"):
+            continue
+        dist_mc["cases"] += 1
+        nreads = r.get("clock_reads", 0)
+        dist_mc["reads"][nreads] = dist_mc["reads"].get(nreads, 0) + 1
+        r["valid"] = None
+        c["_moving"] = True
+        if r["received"]:
+            _sh, th_ = effective_headers(c, r)
+            tsv = r["received"][0]["header"].get(canon_key(th_), [])
+            t1 = ns_of(c["now"])
+            hit = [k for k in range(max(nreads, 1)) if tsv and tsv[0] == str((t1 + k * c["now_step_ns"]) // NS)]
+            if hit:
+                dist_mc["stamped_reading"][hit[0]] = dist_mc["stamped_reading"].get(hit[0], 0) + 1
+                c["now"] = ts(t1 + hit[0] * c["now_step_ns"])
+            else:
+                C.report(ctx, "moving-clock:timestamp-is-no-reading", "the timestamp header %s is none of the %d clock readings starting at %d ns" % (tsv, nreads, t1),
+                         {"kind": "request", "case": {k: v for k, v in c.items() if not k.startswith("_")}, "observed": r})
     # ---- model terms
     terms, widx, wterms = [], [], []
     tmap = []
@@ -448,7 +480,7 @@ def main(ctx, replay):
                     if got != o_valid(v, now):
                         bad("window:%s" % ek, "version %s is %s at %d ns (from %d, until %s)" % (
                             v["id"], "valid" if got else "not valid", now, ns_of(v["from"]), ns_of(v["until"]) if v["has_until"] else None))
-            if mode is not None and sh.strip() and th.strip():
+            if mode is not None and sh.strip() and th.strip() and not c.get("_moving"):
                 want_ref = vs[exp_idx]["ref"].strip() if exp_idx is not None else ""
                 if (r.get("sel_ref") or "") != want_ref:
                     valid = [v for v in vs if o_valid(v, now)]
@@ -567,7 +599,7 @@ def main(ctx, replay):
         "samples": samples or [{"case": {k: v for k, v in cases[0].items() if k != "body_hex"}}],
         "traces_validated_against_impl": len(sign_model) + in_eval,
         "model_impl_mismatches": mism,
-        "input_distribution": dist,
+        "input_distribution": dict(dist, moving_clock=dist_mc),
     })
     return C.conclude(ctx, info, cov, assumptions, proof_broken=proof_broken,
                       searched_note="all generated deliveries and inbound verifications agreed with the independent HMAC oracle")
